@@ -16,9 +16,11 @@ import c01_common as cm  # noqa
 PID = 'C01'
 COQ_HEAD = '\n'.join([
     'From Coq Require Import String List ZArith QArith Qabs.', 'Import ListNotations.',
-    'From FV.C01 Require Import Str Dec Model Orient.', 'Open Scope string_scope.',
+    'From FV.C01 Require Import Str Dec Model.', 'Open Scope string_scope.',
     'Set Printing Width 100000.', 'Set Printing Depth 100000.',
-    'Definition dq s := match parse_dec s with Some d => d | None => dec_zero end.',
+    'Definition dq s := match parse_dec s with Some d => d | None => dec_zero end.', ''])
+COQ_HEAD_ORIENT = COQ_HEAD + '\n'.join([
+    'From FV.C01 Require Import Orient.',
     'Definition sgn (q : Q) : Z := Z.sgn (Qnum q).',
     'Definition close (a b : Q) : bool := Qle_bool (Qabs (a - b)) ((1#1000000) * (1 + Qabs b)).', ''])
 
@@ -247,7 +249,7 @@ def coq_qpts(pts):
 
 
 # ------------------------------------------------------------------ Coq evaluation
-def coq_failing(ctx, name, items, timeout=900, chunk_bytes=70000):
+def coq_failing(ctx, name, items, timeout=900, chunk_bytes=70000, head=None):
     """items: list of (id, coq boolean expression).  Returns the ids whose
     expression evaluates to false, or None when a file does not compile.
     The cases are spread over scratch files compiled in parallel (elaborating
@@ -265,7 +267,7 @@ def coq_failing(ctx, name, items, timeout=900, chunk_bytes=70000):
 
     def one(k):
         chunk = files[k]
-        txt = [COQ_HEAD, 'Definition cases : list (Z * bool) := [']
+        txt = [head or COQ_HEAD, 'Definition cases : list (Z * bool) := [']
         txt.append(';\n'.join(f'({i}%Z, {e})' for i, e in chunk) + '].')
         txt.append('Goal True. idtac "@@ failing". Abort.')
         txt.append('Eval vm_compute in map fst (filter (fun c => negb (snd c)) cases).')
@@ -360,11 +362,14 @@ def main(ctx):
                     ctx.obligations.append({'name': n, 'discharged': False, 'assumptions': [],
                                             'note': 'translator failed closed'})
     model_ok = tie_ok
+    orient_ok = proof_ok
     if tie_ok and not proof_ok:
         ok, log, _ = lib.coq_make(['C01/Model.vo'])
         model_ok = ok
         if not ok:
             ctx.notes['model_build_log_tail'] = log[-1500:]
+        else:
+            orient_ok, _, _ = lib.coq_make(['C01/Orient.vo'])
 
     # ---------------------------------------------------------------- 3. cases
     n_mesh = {'quick': 40, 'thorough': 600}.get(tier, 40)
@@ -485,7 +490,10 @@ def main(ctx):
         bad_read = coq_failing(ctx, 'CorrRead', read_items)
         ctx.log(f'correspondence in Coq ({len(text_items)} texts, {len(read_items)} reads): '
                 f'{time.time() - t0:.1f}s; disagreements: text {bad_text}, read {bad_read}')
-    bad_orient = coq_failing(ctx, 'CorrOrient', orient_items) if model_ok else None
+    bad_orient = coq_failing(ctx, 'CorrOrient', orient_items, head=COQ_HEAD_ORIENT) \
+        if (model_ok and orient_ok) else ([] if model_ok else None)
+    if model_ok and not orient_ok:
+        ctx.notes['orientation_correspondence'] = 'skipped: Orient.v does not check against the translated tables'
     ctx.log(f'orientation / kernel correspondence in Coq ({len(orient_items)} checks): disagreements {bad_orient}')
     n_corr = len(text_items) + len(read_items) + len(orient_items)
     n_dis = (len(bad_text) if bad_text else 0) + (len(bad_read) if bad_read else 0) \
